@@ -39,6 +39,7 @@ SLIP = {
     'hcp_basal_screw': ('hcp', [1 / 3, 1 / 3, -2 / 3, 0], [1, 1, -2, 0], [0, 0, 0, 1], 'p'),
     'hcp_prism_edge': ('hcp', [1 / 3, 1 / 3, -2 / 3, 0], [0, 0, 0, 1], [1, -1, 0, 0], 'p'),
     'hcp_prism_screw': ('hcp', [1 / 3, 1 / 3, -2 / 3, 0], [1, 1, -2, 0], [1, -1, 0, 0], 'p'),
+    'hcp_pyramidal_mixed': ('hcp', [1 / 3, 1 / 3, -2 / 3, 1], [-1, 2, -1, 0], [1, 0, -1, -1], 'p'),          # tilted rotated cell: no lattice vector normal to the plane
     'B2_edge': ('B2', [1, 0, 0], [0, 0, 1], [0, 1, 0], 'p'),
     'B2_mixed': ('B2', [1, 0, 0], [1, 0, 1], [0, 1, 0], 'p'),
 }
@@ -74,6 +75,10 @@ def quick_cases():
     cs.append(_case('fcc_edge', mn=('x', 'z'), gen='monopole', mults=(12, 1, 6), boundary='cylinder', width=4.0))
     cs.append(_case('bcc_mixed', mn=('z', 'y'), gen='periodicarray', mults=(1, 12, 16)))
     cs.append(_case('hcp_basal_edge', mn=('y', 'x'), gen='monopole', mults=(8, 20, 1), center=1))
+    cs.append(_case('hcp_pyramidal_mixed', gen='monopole', mults=(1, 8, 16), boundary='cylinder', width=6.0))          # the tilted faces are the nearest ones
+    cs.append(_case('hcp_pyramidal_mixed', gen='monopole', mults=(1, 16, 8), boundary='box', width=5.0, history='repeat'))
+    cs.append(_case('fcc_edge', mn=('x', 'y'), gen='monopole', mults=(8, 12, 1), history='repeat'))
+    cs.append(_case('bcc_screw', mn=('x', 'y'), gen='periodicarray', mults=(10, 8, 2), history='repeat'))
     cs.append(_case('fcc_edge_conv', gen='monopole', mults=(1, 16, 8)))
     cs.append(_case('bcc_edge_conv', gen='periodicarray', mults=(1, 16, 12)))
     return cs
@@ -249,14 +254,27 @@ def check_case(am, case):
         if case['boundary']:
             kw['boundarywidth'] = case['width']
     mults_before = tuple(mults)
+    rc_pos_before = rc.atoms.pos.copy()
+    rc_vects_before = rc.box.vects.copy()
     try:
+        if case['history'] == 'repeat':
+            # the same request twice on one object: the second answer must be the first one again
+            kw1 = dict(kw)
+            kw1['sizemults'] = list(case['mults'])
+            first = getattr(d, case['gen'])(**kw1)
         base, disl = getattr(d, case['gen'])(**kw)
+        if case['history'] == 'repeat':
+            if first[0].natoms != base.natoms or not np.allclose(first[0].atoms.pos, base.atoms.pos, atol=1e-9) or not np.allclose(first[1].atoms.pos, disl.atoms.pos, atol=1e-9):
+                msgs.append('a second identical call on the same object returns a different configuration (reference atoms differ by up to %.4g)'
+                            % (np.abs(first[0].atoms.pos - base.atoms.pos).max() if first[0].natoms == base.natoms else float('nan')))
     except ValueError as e:
         if 'atom positions found on slip plane' in str(e) or 'expected number of atoms to delete not an integer' in str(e) or 'Deleted atom mismatch' in str(e):
             return ['REFUSED: %s' % e]
         raise
     if tuple(mults) != mults_before:
         msgs.append("the caller's sizemults were modified to %r" % (mults,))
+    if not (np.array_equal(d.rcell.atoms.pos, rc_pos_before) and np.array_equal(d.rcell.box.vects, rc_vects_before)):
+        msgs.append('the generator modified the rotated cell of the Dislocation object (atoms moved by up to %.4g)' % np.abs(d.rcell.atoms.pos - rc_pos_before).max())
     if not np.allclose(d.shift, want_shift, atol=1e-9):
         msgs.append('shift used %r is not the requested %r' % (d.shift.tolist(), want_shift.tolist()))
     if d.base_system is not base or d.disl_system is not disl:
